@@ -130,6 +130,12 @@ func SymT(s Sort, name string, taint uint64) *Term {
 	return intern(&Term{Op: "s", Sort: s, S: name, Taint: taint})
 }
 
+// SymSized makes a byte-string symbol whose length is part of its identity (distinct from the
+// symbolic-length symbol of the same name).
+func SymSized(name string, n int, taint uint64) *Term {
+	return intern(&Term{Op: "sb", Sort: Bytes, S: name, C: big.NewInt(int64(n)), Taint: taint})
+}
+
 var freshCtr int
 
 // Fresh makes a new unique symbol.
@@ -374,7 +380,7 @@ func (t *Term) write(b *strings.Builder, depth int) {
 		} else {
 			fmt.Fprintf(b, "%q", t.S)
 		}
-	case "s":
+	case "s", "sb":
 		b.WriteString(t.S)
 	case "+", "*":
 		b.WriteByte('(')
@@ -419,6 +425,9 @@ func BytesLen(t *Term) (int, bool) {
 	}
 	if t.IsStrConst() {
 		return len(t.S), true
+	}
+	if t.Op == "sb" {
+		return int(t.C.Int64()), true
 	}
 	mu.Lock()
 	n, ok := bytesLen[t]
